@@ -7,11 +7,11 @@ def names(log):
     return [C.b2s(x) for x in log]
 
 
-def run_scenarios(chk, scens):
+def run_scenarios(chk, scens, isolated=False):
     """scens: list of scen.Scen. Returns list of (impl_results, model_results) per scenario (each a
     list with one entry per cycle: [result, log, store])."""
     cases = [s.case() for s in scens]
-    out = C.run_impl(cases)
+    out = C.run_impl_isolated(cases) if isolated else C.run_impl(cases)
     impl, mcases = [], []
     for o in out:
         if not (isinstance(o, list) and len(o) == 2):
